@@ -5,6 +5,7 @@
 import Proofs.Tlv
 import Proofs.Srp
 import HapModel.PairSetup
+import Proofs.PairSetupGate
 namespace Hap.PairSetup
 open Hap Hap.Tlv Hap.Srp
 
@@ -91,5 +92,57 @@ theorem step_M5 (cfg : Cfg) (ps : PS) (srv : Server) (ss : Sess) (ident cltpk cs
   simp only [List.append_assoc] at hsig'
   simp [pairingThreeKey, ok.aead, hsub, lookup, T_USERNAME, T_PUBLIC_KEY, T_PROOF, pairingFour, hsig',
     pairingFive, huuid, hp, hv, setPairing, accSub]
+
+
+/-! ### degenerate `A` (C01) -/
+
+/-- repaired code: an M3 whose `A ≡ 0 (mod N)` is answered M4/authentication-error whatever the
+    proof is; no success is recorded and the pairing table is untouched -/
+theorem step_M3_degenerate (cfg : Cfg) (ps : PS) (srv : Server) (A M salt bRand : Bytes)
+    (hp : ps.paired = []) (hv : ps.verifier = some srv) (hA : bytesToNat A % srv.G.N = 0) :
+    step cfg ps ⟨ctrlM3 A M, salt, bRand⟩
+      = ({ ps with verifier := some (setA cfg.c.H srv A) }, .m4AuthErr, []) := by
+  rw [step_M3 cfg ps srv A M salt bRand hp hv]
+  have h : verify (setA cfg.c.H srv A) M = (setA cfg.c.H srv A, none) := by
+    simp [verify, setA, mkSess, hA]
+  rw [h]
+
+theorem stepLegacy_M1 (cfg : Cfg) (ps : PS) (salt bRand : Bytes) (hp : ps.paired = []) :
+    stepLegacy cfg ps ⟨ctrlM1, salt, bRand⟩
+      = ({ ps with verifier := some (Srp.mk cfg.c.H cfg.G SRP_USER ps.pincode salt (bytesToNat bRand)) },
+         .m2 salt (Srp.mk cfg.c.H cfg.G SRP_USER ps.pincode salt (bytesToNat bRand)).Bb, []) := by
+  have hd : Tlv.decode ctrlM1 [] = some [(T_SEQUENCE_NUM, [1]), (T_METHOD, [0])] :=
+    decode2 _ _ _ _ (by decide)
+  simp [stepLegacy, hp, hd, lookup, pairingOne, Srp.mk, T_SEQUENCE_NUM, T_METHOD]
+
+theorem stepLegacy_M3 (cfg : Cfg) (ps : PS) (srv : Server) (A M salt bRand : Bytes) (hp : ps.paired = [])
+    (hv : ps.verifier = some srv) :
+    stepLegacy cfg ps ⟨ctrlM3 A M, salt, bRand⟩
+      = ({ ps with verifier := some (setALegacy cfg.c.H srv A) },
+         (match verifyLegacy (setALegacy cfg.c.H srv A) M with
+          | none => Out.m4AuthErr | some h => Out.m4 h), []) := by
+  have hd : Tlv.decode (ctrlM3 A M) []
+      = some [(T_SEQUENCE_NUM, [3]), (T_PUBLIC_KEY, A), (T_PASSWORD_PROOF, M)] :=
+    decode3 _ _ _ _ _ _ (by decide) (by decide) (by decide)
+  simp only [stepLegacy, hp, hd, ne_eq, not_true_eq_false, if_false]
+  simp only [lookup, T_SEQUENCE_NUM, T_PUBLIC_KEY, T_PASSWORD_PROOF, pairingTwoLegacy, hv]
+  simp
+  cases h : verifyLegacy (setALegacy cfg.c.H srv A) M <;> simp [h, hp]
+
+/-- a transparent crypto instance (satisfies `CryptoOK`); used for non-vacuity examples and for the
+    concrete legacy counterexamples -/
+def toyCrypto : Crypto where
+  H d := 0 :: d
+  hkdf k s i := k ++ s ++ i
+  aeadEnc k _ p := p ++ k
+  aeadDec k _ c := if c.drop (c.length - k.length) = k then some (c.take (c.length - k.length)) else none
+  sigVerify pk sg m := some (sg = pk ++ m)
+  sign m := [7] ++ m
+  uuidOf b := some b
+
+theorem toyCrypto_ok : CryptoOK toyCrypto [7] := by
+  constructor
+  · intro k n p; simp [toyCrypto]
+  · intro m; simp [toyCrypto]
 
 end Hap.PairSetup
